@@ -10,7 +10,9 @@
 (*         srv (who the server now says c is)                                                  *)
 (*  Cmd:   c, ty (policy row), pt, claims ("absent" | "own" | "victim": SenderId / ReceiverId / *)
 (*         Token of the packet), bf ("absent" | "own" | "third" | "victim": client-id fields     *)
-(*         inside the JSON body), wv (state of the named objects: base / expired / revoked /     *)
+(*         inside the JSON body), cid ("fresh" | "reused": the command id another client's command *)
+(*         of this type just carried), flt ("none" | "read1": one failed storage read of the     *)
+(*         named object's record during the command), wv (state of the named objects: base / expired / revoked /     *)
 (*         inactive), objt (target client the named mapping designates, else "none"), obj, hc, out ("ok": a success response, "fail": a failure      *)
 (*         response or an error from the dispatcher, "none": nothing came back),               *)
 (*         objp / objo (parties and listen-client / owner of the named object before the       *)
@@ -77,8 +79,10 @@ Judge(e) ==
       \* ---- identity fields inside the packet (envelope or body) have no effect: same outcome as the twin run
       \* without them; in particular a packet relayed through a mapping goes to the client the mapping
       \* designates, whatever id the body carries
-      vC == If(need /\ (e.claims # "absent" \/ e.bf # "absent") /\ "ref" \in DOMAIN e /\ e.sum # e.ref,
-               V("ClaimsMatter", D("env=" \o e.claims \o ":body=" \o e.bf)))
+      \* (the command id is such a field too: reusing the id another client's command just carried changes nothing)
+      reused == "cid" \in DOMAIN e /\ e.cid = "reused"
+      vC == If(need /\ (e.claims # "absent" \/ e.bf # "absent" \/ reused) /\ "ref" \in DOMAIN e /\ e.sum # e.ref,
+               V("ClaimsMatter", D("env=" \o e.claims \o ":body=" \o e.bf \o (IF reused THEN ":cid=reused" ELSE ""))))
       vR == If(need /\ row.cls = "obj" /\ row.party = "listen" /\ \E p \in dels : p.to # e.objt,
                V("Redirected", D("body=" \o e.bf)))
       \* ---- the response to a command goes to the connection it arrived on, never to another client's
